@@ -319,40 +319,107 @@ def r22(ctx, R):
     # multi_group_rcs is complete before the merge
     gb = prog.func(AC + ':AllocationCandidates._get_by_requests')
     gg = cfgmod.cfg_of(gb)
-    adds = [n for n in own_nodes(gb.node) if isinstance(n, ast.Call)
-            and isinstance(n.func, ast.Attribute) and n.func.attr == 'add'
-            and src(n.func.value).endswith('.multi_group_rcs')]
     mer = C.calls_to(ctx, gb, AC + ':_merge_candidates')
-    okm = len(adds) == 1 and len(mer) == 1
-    why = 'adds=%d merges=%d' % (len(adds), len(mer))
+    outer = [x for x in own_nodes(gb.node) if isinstance(x, ast.For)
+             and '.items()' in src(x.iter)
+             and any('multi_group_rcs' in src(y) for y in own_nodes_of(x))]
+    okm = len(mer) == 1 and len(outer) == 1
+    why = 'group loops touching multi_group_rcs=%d merges=%d' % (
+        len(outer), len(mer))
     if okm:
-        a = adds[0]
-        ifs = C.guarding_ifs(C.stmt_of(a), gb.node)
-        seen_ok = len(ifs) >= 1 and isinstance(
-            ifs[0][0].test, ast.Compare) and isinstance(
-                ifs[0][0].test.ops[0], ast.In) and src(
-                    ifs[0][0].test.left) == src(a.args[0])
-        seen = src(ifs[0][0].test.comparators[0]) if seen_ok else None
-        else_adds = seen_ok and any(
-            isinstance(x, ast.Call) and isinstance(x.func, ast.Attribute)
-            and x.func.attr == 'add' and src(x.func.value) == seen
-            for s_ in ifs[0][0].orelse for x in ast.walk(s_))
-        # loop over the group's class names, inside the loop over groups
-        lp = getattr(ifs[0][0], '_parent', None) if seen_ok else None
-        loop_ok = isinstance(lp, ast.For) and src(lp.iter).endswith('.rcs') \
-            and src(lp.target) == src(a.args[0])
-        outer = getattr(lp, '_parent', None) if loop_ok else None
-        outer_ok = isinstance(outer, ast.For) and '.items()' in src(
-            outer.iter) and not C.guarding_ifs(lp, outer)
-        before = outer_ok and gg.dominates(outer, C.stmt_of(mer[0]))
-        okm = seen_ok and else_adds and loop_ok and outer_ok and before
-        why = 'seen-test=%s else-records=%s class-loop=%s group-loop=%s ' \
-            'before-merge=%s' % (seen_ok, else_adds, loop_ok, outer_ok,
-                                 before)
+        lp = outer[0]
+        # (1) where multi_group_rcs grows, and from what
+        grows = []      # (stmt, kind, seen-name)
+        for n in own_nodes_of(lp):
+            # multi.add(rc) under "if rc in SEEN" inside "for rc in X.rcs"
+            if isinstance(n, ast.Call) and isinstance(
+                    n.func, ast.Attribute) and n.func.attr == 'add' and \
+                    src(n.func.value).endswith('.multi_group_rcs'):
+                ifs = C.guarding_ifs(C.stmt_of(n), lp)
+                t = ifs[0][0].test if ifs else None
+                weakened = False
+                if isinstance(t, ast.BoolOp) and isinstance(t.op, ast.And):
+                    mem = [v for v in t.values if isinstance(
+                        v, ast.Compare) and isinstance(v.ops[0], ast.In)
+                        and src(v.left) == src(n.args[0])]
+                    if mem:
+                        t = mem[0]
+                        weakened = True
+                if isinstance(t, ast.Compare) and isinstance(
+                        t.ops[0], ast.In) and src(t.left) == src(
+                            n.args[0]) and ifs[0][1] == 'body':
+                    inner = getattr(ifs[0][0], '_parent', None)
+                    if isinstance(inner, ast.For) and src(
+                            inner.iter).endswith('.rcs') and src(
+                                inner.target) == src(n.args[0]) and not \
+                            C.guarding_ifs(inner, lp):
+                        grows.append((inner, 'loop-weakened' if weakened
+                                      else 'loop', src(t.comparators[0])))
+            # multi |= SEEN & X.rcs   /  multi.update(SEEN & X.rcs)
+            val = None
+            if isinstance(n, ast.AugAssign) and isinstance(
+                    n.op, ast.BitOr) and src(n.target).endswith(
+                        '.multi_group_rcs'):
+                val = n.value
+            if isinstance(n, ast.Call) and isinstance(
+                    n.func, ast.Attribute) and n.func.attr == 'update' \
+                    and src(n.func.value).endswith('.multi_group_rcs') \
+                    and n.args:
+                val = n.args[0]
+            if isinstance(val, ast.BinOp) and isinstance(
+                    val.op, ast.BitAnd):
+                sides = [val.left, val.right]
+                rcs = [x for x in sides if src(x).endswith('.rcs')]
+                other = [x for x in sides if not src(x).endswith('.rcs')]
+                st = C.stmt_of(n)
+                if len(rcs) == 1 and len(other) == 1 and isinstance(
+                        other[0], ast.Name) and not C.guarding_ifs(st, lp):
+                    grows.append((st, 'setop', other[0].id))
+        if len(grows) != 1:
+            raise model.AnalysisError(
+                'R2.2: the bookkeeping of multi_group_rcs is not one of the '
+                'recognised idioms (%d candidates)' % len(grows))
+        gst, kind, seen = grows[0]
+        # (2) the seen-set only grows inside the loop over groups
+        replaced = []
+        accum = []
+        for n in own_nodes_of(lp):
+            if isinstance(n, ast.Assign) and any(
+                    isinstance(t, ast.Name) and t.id == seen
+                    for t in n.targets):
+                v = n.value
+                if isinstance(v, ast.BinOp) and isinstance(
+                        v.op, ast.BitOr) and seen in C.names_in(v):
+                    accum.append(n)
+                else:
+                    replaced.append(n)
+            if isinstance(n, ast.AugAssign) and src(n.target) == seen:
+                if isinstance(n.op, ast.BitOr):
+                    accum.append(n)
+                else:
+                    replaced.append(n)
+            if isinstance(n, ast.Call) and isinstance(
+                    n.func, ast.Attribute) and src(n.func.value) == seen:
+                if n.func.attr in ('add', 'update'):
+                    accum.append(n)
+                elif n.func.attr in ('clear', 'discard', 'remove', 'pop',
+                                     'intersection_update',
+                                     'difference_update'):
+                    replaced.append(n)
+        okm = bool(accum) and not replaced and gg.dominates(
+            lp, C.stmt_of(mer[0])) and kind != 'loop-weakened'
+        # every group contributes its classes to the seen-set
+        if kind == 'setop':
+            okm = okm and any(not C.guarding_ifs(C.stmt_of(a), lp)
+                              for a in accum)
+        why = '%s idiom; seen-set %s accumulates at %d site(s), ' \
+            'replaced/shrunk at %s' % (kind, seen, len(accum),
+                                       ['line %d' % r.lineno
+                                        for r in replaced])
     R.ob('R2.2', 'multi_group_rcs:complete-before-merge', okm,
-         'a class name seen in a second group is recorded in '
-         'multi_group_rcs for every group before candidates are merged',
-         why, func=gb)
+         'every class name requested by a second group is recorded in '
+         'multi_group_rcs before candidates are merged: the set of classes '
+         'seen so far only grows across the loop over groups', why, func=gb)
     # names, not ids, on both sides
     rg = prog.func(RC + ':RequestGroupSearchContext.__init__')
     addn = [n for n in own_nodes(rg.node) if isinstance(n, ast.Call)
